@@ -492,14 +492,15 @@ def run(ctx):
     failed = []
     for (name, H, W, base, n) in cfgs:
         mc(ctx, failed, "Regions", dict(spec="Spec", invariants=INV, constants=dict(
-            H=H, W=W, VALS=set(base), N=n, MUT="none")), name, coverage=(name == "3x3_b_n4"), timeout=4 * 3600)
+            H=H, W=W, VALS=set(base), N=n, MUT="none")), name, coverage=(name == "3x3_b_n4"), timeout=4 * 3600,
+           workers=(4 if H * W <= 12 else 16))      # small scopes: extra TLC workers only burn CPU
     # negative twins: TLC must reject each broken variant of the two passes
     twins = [("nopass2", 3, 3, 4), ("noelse", 3, 3, 4), ("localreplace", 3, 3, 4)]
     if ctx.tier == "thorough":
         twins.append(("alwaysnew", 3, 4, 4))        # needs an interior isolated pair: 100k states
     for mut, H, W, n in twins:
         ctx.model_check("Regions", dict(spec="Spec", invariants=["PartitionIsComponents"], constants=dict(
-            H=H, W=W, VALS={0, 1}, N=n, MUT=mut)), "neg_" + mut, expect="violation")
+            H=H, W=W, VALS={0, 1}, N=n, MUT=mut)), "neg_" + mut, expect="violation", workers=4)
     ctx.exhaustive = True
 
     # ---- one round of worker processes for everything that runs the real code
@@ -513,7 +514,7 @@ def run(ctx):
     allcases = core.run_jobs("regions_worker", ejobs + tjobs, nproc=ctx.pick(8, 16))
     # ---- R: the complete enumerated scope through the real regions()
     cases = allcases[:len(ejobs)]
-    good = judge_and_handle(ctx, cases, "replay_all_rasters", "R", parallel=8)
+    good = judge_and_handle(ctx, cases, "replay_all_rasters", "R", parallel=ctx.pick(1, 8))
     ctx.extra["replayed_rasters"] = len(cases)
     for c in good[5:6] + good[300:301]:
         ctx.sample({"kind": "replay", "n": c["n"], "vals": c["vals"], "labels": c["out"]})
@@ -522,7 +523,7 @@ def run(ctx):
     # ---- T: seeded larger rasters
     cases = allcases[len(ejobs):]
     del allcases
-    good = judge_and_handle(ctx, cases, "seeded_shapes", "T", parallel=8)
+    good = judge_and_handle(ctx, cases, "seeded_shapes", "T", parallel=ctx.pick(2, 8))
     ctx.extra["targeted_family_cases"] = len(fjobs)
     for c in good[-3:]:
         ctx.sample({"kind": "seeded", "gen": c["tag"], "n": c["n"], "dtype": c["dtype"], "vals": c["vals"],
